@@ -10,8 +10,8 @@
 using namespace muscle;
 
 // script letters: r/w blocking read/write acquire, R/W try, t/T finite-deadline, '.' release the latest successful acquisition
-static const char * kScripts[] = {"r.", "w.", "R.", "W.", "t.", "T.", "rw..", "rr..", "wr..", "ww..", "rT..", "r.w.", "ri.", "wi.", "rW..", "tw..", "rt.."};
-static const int kNumBase = 14;   // the first 12 form the "full script space" of DESIGN 3 C18; the rest are extras used by named configurations
+static const char * kScripts[] = {"r.", "w.", "R.", "W.", "t.", "T.", "rw..", "rr..", "wr..", "ww..", "rT..", "r.w.", "ri.", "wi.", "wrv.", "rwv.", "rW..", "tw..", "rt.."};
+static const int kNumBase = 16;   // the first 12 form the "full script space" of DESIGN 3 C18; the rest are extras used by named configurations
 
 struct Config { bool preferWriters; std::vector<std::string> scripts; };
 static std::string ConfigToString(const Config & c) { std::string s = c.preferWriters ? "pw=1" : "pw=0"; for (size_t i = 0; i < c.scripts.size(); i++) s += (i ? "|" : ";") + c.scripts[i]; return s; }
@@ -52,9 +52,12 @@ static void ThreadBody(const ReaderWriterMutex * m, Monitor * sharedMon, int me,
       const char c = script[pc];
       if (c == 'x') continue;   // trailing marker: surplus-release check after the script (below)
       if (c == 'i') { schedx::Idle("long-critical-section"); continue; }   // stay inside the critical section until every other thread is blocked or done (free of preemption cost)
-      if (c == '.') {
+      if (c == '.' || c == 'v' || c == 'u') {
+         // '.' releases the latest successful acquisition; 'v' / 'u' release one WRITE / one READ lock whatever the order (a downgrade: "wrv." keeps reading)
          if (held.empty()) continue;   // the acquisition this release pairs with failed (try/timed): nothing to release
-         const char k = held.back(); held.pop_back();
+         char k;
+         if (c == '.') { k = held.back(); held.pop_back(); }
+         else { const char want = (c == 'v') ? 'w' : 'r'; int at = -1; for (int h = (int)held.size() - 1; h >= 0; h--) if (held[(size_t)h] == want) { at = h; break; } if (at < 0) continue; k = want; held.erase(held.begin() + at); }
          mon->activity++; mon->inCall[me] = true;   // while the release call runs the thread is still registered inside the mutex
          if (k == 'r') { mon->rd[me]--; status_t r = m->UnlockReadOnly(); if (r.IsError()) schedx::Fail("release-failed", verif::Fmt("thread %d: UnlockReadOnly of a held read lock failed (%s)", me, r())); }
          else          { mon->wr[me]--; status_t r = m->UnlockReadWrite(); if (r.IsError()) schedx::Fail("release-failed", verif::Fmt("thread %d: UnlockReadWrite of a held write lock failed (%s)", me, r())); }
@@ -123,7 +126,7 @@ static void Body(const Config & cfg)
    delete m; delete mon; delete[] ids;
 }
 
-static bool IsUpgradeScript(const std::string & s) { return s == "rw.." || s == "rT.." || s == "rW.."; }
+static bool IsUpgradeScript(const std::string & s) { return s == "rw.." || s == "rT.." || s == "rW.." || s == "rwv."; }
 static bool IsWriterScript(const std::string & s) { return s.find_first_of("wWT") != std::string::npos; }
 // mode 0: every multiset of n scripts; mode 1: only multisets that contain an upgrade script together with a competing writer in another thread
 static void AddMultisets(std::vector<Config> & out, int n, int mode)
@@ -169,7 +172,7 @@ int main(int argc, char ** argv)
    if (args.kv.count("config")) cfgs.push_back(ConfigFromString(args.kv["config"]));
    else {
       // named configurations first (simplest first), then the script space
-      const char * named[] = {"pw=1;r.|w.", "pw=0;r.|w.", "pw=1;rw..|r.|w.", "pw=0;rw..|r.|w.", "pw=1;rW..|r.|w.", "pw=1;rT..|r.|w.", "pw=1;w.|T.|r.", "pw=1;w.|T.|w.", "pw=0;w.|T.|r.", "pw=1;wi.|T.|w.", "pw=1;wi.|T.|r.", "pw=0;wi.|T.|w.", "pw=1;wi.|t.|w.", "pw=1;ri.|T.|w.", "pw=1;ri.|T.|T.", "pw=1;wi.|rT..|r.", "pw=1;wi.|w.|r.|r.", "pw=0;wi.|r.|w.|r.", "pw=1;ri.|rw..|w.", "pw=1;rw..|rw..", "pw=1;rw..|rw..|r.", "pw=1;r.|r.|w.|w.", "pw=1;r.x|w.x", "pw=0;rw..x|w.x", "pw=1;rr..|ww..|t.", "pw=0;rT..|rT..|w."};
+      const char * named[] = {"pw=1;r.|w.", "pw=0;r.|w.", "pw=1;rw..|r.|w.", "pw=0;rw..|r.|w.", "pw=1;rW..|r.|w.", "pw=1;rT..|r.|w.", "pw=1;w.|T.|r.", "pw=1;w.|T.|w.", "pw=0;w.|T.|r.", "pw=1;wi.|T.|w.", "pw=1;wi.|T.|r.", "pw=0;wi.|T.|w.", "pw=1;wi.|t.|w.", "pw=1;ri.|T.|w.", "pw=1;ri.|T.|T.", "pw=1;wi.|rT..|r.", "pw=1;wi.|w.|r.|r.", "pw=0;wi.|r.|w.|r.", "pw=1;ri.|rw..|w.", "pw=1;wrv.|w.|r.", "pw=1;rwv.|w.|r.", "pw=0;wrv.|w.|r.", "pw=1;wriv.|w.|r.", "pw=1;wrv.|T.|t.", "pw=1;rw..|rw..", "pw=1;rw..|rw..|r.", "pw=1;r.|r.|w.|w.", "pw=1;r.x|w.x", "pw=0;rw..x|w.x", "pw=1;rr..|ww..|t.", "pw=0;rT..|rT..|w."};
       for (size_t i = 0; i < sizeof(named) / sizeof(named[0]); i++) cfgs.push_back(ConfigFromString(named[i]));
       AddMultisets(cfgs, 2, 0);   // every pair of scripts
       if (args.Thorough()) AddMultisets(cfgs, 3, 0); else AddMultisets(cfgs, 3, 1);
@@ -205,7 +208,7 @@ int main(int argc, char ** argv)
    for (std::map<int, verif::Part>::iterator it = byBound.begin(); it != byBound.end(); ++it) {
       verif::Part & a = it->second; a.name = verif::Fmt("rwmutex-bound%d", it->first); a.bound_completed = a.exhaustive ? it->first : -1;
       if (capped && it->first == byBound.rbegin()->first) { a.exhaustive = false; if (a.cap.empty()) a.cap = "deadline: not every configuration was explored at this bound"; }
-      a.rule = verif::Fmt("every interleaving with <=%d preemptions/fired timeouts (iterative context bounding over hooked Mutex/WaitCondition points + one yield inside each critical section) of %s thread-script configurations over one real ReaderWriterMutex (scripts from {r. w. R. W. t. T. rw.. rr.. wr.. ww.. rT.. r.w. ri. wi.} = blocking/try/timed acquisitions, recursion, upgrade, i = holder stays in its critical section until all others are blocked; both writer-preference settings); one execution = one forked process; distinct = distinct (status, per-thread result log)", it->first, a.extra["configurations"].c_str());
+      a.rule = verif::Fmt("every interleaving with <=%d preemptions/fired timeouts (iterative context bounding over hooked Mutex/WaitCondition points + one yield inside each critical section) of %s thread-script configurations over one real ReaderWriterMutex (scripts from {r. w. R. W. t. T. rw.. rr.. wr.. ww.. rT.. r.w. ri. wi. wrv. rwv.} = blocking/try/timed acquisitions, recursion, upgrade, i = holder stays in its critical section until all others are blocked, v = release the write lock first while keeping a read lock (downgrade); both writer-preference settings); one execution = one forked process; distinct = distinct (status, per-thread result log)", it->first, a.extra["configurations"].c_str());
       res.parts.push_back(a);
    }
    fprintf(stderr, "C18: configs=%u executions=%lu capped=%d violations=%u wall=%.1fs\n", (unsigned)done, execs, (int)capped, (unsigned)res.violations.size(), verif::NowS() - args.t0);
